@@ -70,7 +70,8 @@ def tree_of_model(s):
 def gen_case(rng):
     return dict(tseed=rng.randrange(1 << 30), ivfc=rng.random() < 0.5, bs=rng.choice([0, 4, 9, 12, 16, rng.randrange(0, 17)]),
                 start=rng.choice([0, 0, 0x10, 0x200, 0x333]), ci=rng.random() < 0.5, shuffle=rng.random() < 0.5,
-                hash_tables=rng.choice(['valid', 'zero']), mutate=rng.random() < 0.35, big=rng.random() < 0.1)
+                hash_tables=rng.choice(['valid', 'zero']), mutate=rng.random() < 0.35, big=rng.random() < 0.1,
+                other_bs=[rng.randrange(0, 20), rng.randrange(0, 20)] if rng.random() < 0.6 else None)
 
 
 def run_case(ctx, mr, case):
@@ -103,6 +104,12 @@ def run_case(ctx, mr, case):
     image = lv3
     if case['ivfc']:
         image, winfo = R.wrap_ivfc(lv3, block_log2=case['bs'])
+        if case.get('other_bs'):
+            # levels 1 and 2 may use other block sizes than level 3; only level 3's positions the file system
+            b = bytearray(image)
+            for (o, w, d), v in zip([f for f in winfo['fields'] if f[2] in ('ivfc.lv1.block_log2', 'ivfc.lv2.block_log2')], case['other_bs']):
+                b[o:o + w] = v.to_bytes(w, 'little')
+            image = bytes(b)
     bio = io.BytesIO(b'\xC3' * case['start'] + image + b'\xC3' * 7)
     bio.seek(case['start'])
     # ---- model vs implementation on the metadata walk (case-sensitive view of the raw tables)
